@@ -30,6 +30,7 @@ static std::set<std::string> used_names;
 static const DataLayout* DL;
 static int n_fail = 0;
 static std::set<const Function*> libc_renamed;
+static std::vector<std::pair<std::string, std::string>> cuts; // (substring of mangled name, macro suffix)
 static std::map<std::string, std::string> new_types; // tag -> C element type of typed operator new sites
 static std::map<std::string, std::string> mem_types; // tag -> C element type used by mem* helpers
 
@@ -325,6 +326,41 @@ static void emit_function(raw_ostream& o, Function& F) {
   for (Argument& a : F.args()) { if (!ps.empty()) ps += ", "; ps += cdecl(a.getType(), cx.names[&a]); }
   if (ps.empty()) ps = "void";
   o << cdecl(F.getReturnType(), gname.at(&F) + "(" + ps + ")") << " {\n";
+  // (a) assert-unreachable cuts: selected per query with -DVERIF_CUT_<NAME>; the solver must prove the function unreachable
+  for (auto& c : cuts) {
+    if (F.getName().find(c.first) != StringRef::npos) {
+      o << "#if defined(VERIF_CBMC) && defined(VERIF_CUT_" << c.second << ")\n"
+        << "  __CPROVER_assert(0, \"ENCODING-BOUND: cut function reached (" << c.second << ")\"); __CPROVER_assume(0); " << ret_zero(&F) << "\n#endif\n";
+    }
+  }
+  // (b) model of std::vector<T>::_M_realloc_insert(pos, const T& / T&&) for scalar T with std::allocator: one fixed-capacity block
+  if (F.getName().startswith("_ZNSt6vectorI") && F.getName().contains("17_M_realloc_insertI") && F.getName().contains("SaI") && F.arg_size() == 3) {
+    Type* t0 = F.getArg(0)->getType(); Type* t1 = F.getArg(1)->getType(); Type* t2 = F.getArg(2)->getType();
+    if (t1 == t2 && t1->isPointerTy()) {
+      Type* et = t1->getPointerElementType();
+      // walk this->f0.f0.f0... down to the {T*,T*,T*} struct
+      std::string path = "(*a0)"; Type* cur = t0->getPointerElementType(); bool ok = false;
+      for (int depth = 0; depth < 6 && cur->isStructTy(); ++depth) {
+        auto* st = cast<StructType>(cur);
+        if (st->getNumElements() == 3 && st->getElementType(0) == t1 && st->getElementType(1) == t1 && st->getElementType(2) == t1) { ok = true; break; }
+        if (st->getNumElements() < 1) break;
+        path += ".f0"; cur = st->getElementType(0);
+      }
+      if (ok && (et->isIntegerTy() || et->isFloatingPointTy() || et->isPointerTy())) {
+        std::string T = ctype(et);
+        o << "#if defined(VERIF_CBMC) && defined(VERIF_VEC_CAP)\n"
+          << "  { " << T << "* os = " << path << ".f0; " << T << "* of = " << path << ".f1;\n"
+          << "    uint64_t n = os ? (uint64_t)(of - os) : 0, idx = os ? (uint64_t)(a1 - os) : 0;\n"
+          << "    __CPROVER_assert(n < VERIF_VEC_CAP, \"ENCODING-BOUND: std::vector grows beyond VERIF_VEC_CAP elements\"); __CPROVER_assume(n < VERIF_VEC_CAP);\n"
+          << "    " << T << "* nb = (" << T << "*)malloc(sizeof(" << T << ") * VERIF_VEC_CAP); __CPROVER_assume(nb != 0); verif_live_blocks++;\n"
+          << "    for (uint64_t i = 0; i < VERIF_VEC_CAP; i++) if (i < idx) nb[i] = os[i];\n"
+          << "    nb[idx] = *a2;\n"
+          << "    for (uint64_t i = 0; i < VERIF_VEC_CAP; i++) if (i >= idx && i < n) nb[i + 1] = os[i];\n"
+          << "    if (os) { free(os); verif_live_blocks--; }\n"
+          << "    " << path << ".f0 = nb; " << path << ".f1 = nb + n + 1; " << path << ".f2 = nb + VERIF_VEC_CAP; return; }\n#endif\n";
+      }
+    }
+  }
   // locals
   for (BasicBlock& bb : F) for (Instruction& i : bb) {
     if (i.getType()->isVoidTy()) continue;
@@ -473,7 +509,7 @@ static void emit_function(raw_ostream& o, Function& F) {
           if (et && nb == 1) {
             std::string T = ctype(et); if (et->isPointerTy()) T = "verif_ptr_t";
             std::string tag = sanitize(T); new_types[tag] = T;
-            o << "  " << lhs << "verif_new_" << tag << "(" << cexpr(cb->getArgOperand(0), &cx) << ");\n";
+            o << "  " << lhs << (isa<ConstantInt>(cb->getArgOperand(0)) ? "verif_newc_" : "verif_new_") << tag << "(" << cexpr(cb->getArgOperand(0), &cx) << ");\n";
             if (auto* inv = dyn_cast<InvokeInst>(cb)) emit_goto(o, &bb, inv->getNormalDest(), cx, "  ");
             continue;
           }
@@ -601,6 +637,7 @@ int main(int argc, char** argv) {
   auto M = parseIRFile(argv[1], E, C);
   if (!M) { E.print("ll2c", errs()); return 1; }
   DL = &M->getDataLayout();
+  if (const char* cf = getenv("LL2C_CUTS")) { FILE* f = fopen(cf, "r"); if (f) { char a[512], b[128]; while (fscanf(f, "%511s %127s", a, b) == 2) if (a[0] != '#') cuts.push_back({a, b}); fclose(f); } }
   std::error_code ec;
   raw_fd_ostream o(argv[2], ec);
   // names
